@@ -34,8 +34,8 @@ def do_import(pid, letter, root='/tmp/wt', as_letter=None):
     demo = open(os.path.join(src, 'demo.py')).read()
     # make the demo independent of the worktree it was written in
     demo = re.sub(r"^ROOT\s*=.*$", "ROOT = os.environ.get('GLOM_ROOT', '/repo')", demo, count=1, flags=re.M)
-    demo = re.sub(r"startswith\(\s*'/tmp/wt[235]?/%s'?\s*(\+\s*os\.sep|/')?\s*\)" % pid, "startswith(ROOT)", demo)
-    for r_ in ('/tmp/wt5', '/tmp/wt3', '/tmp/wt2', '/tmp/wt'):
+    demo = re.sub(r"startswith\(\s*'/tmp/wt[2357]?/%s'?\s*(\+\s*os\.sep|/')?\s*\)" % pid, "startswith(ROOT)", demo)
+    for r_ in ('/tmp/wt7', '/tmp/wt5', '/tmp/wt3', '/tmp/wt2', '/tmp/wt'):
         demo = demo.replace("'%s/%s/'" % (r_, pid), "ROOT").replace("'%s/%s'" % (r_, pid), "ROOT")
     if 'GLOM_ROOT' not in demo:
         demo = ("import os, sys\nROOT = os.environ.get('GLOM_ROOT', '/repo')\nsys.path.insert(0, ROOT)\n" + demo)
@@ -144,6 +144,8 @@ if __name__ == '__main__':
         do_import(a[1], a[2], root='/tmp/wt3', as_letter={'A': 'E', 'B': 'F'}[a[2]])
     elif a[0] == 'import4':       # round 4: /tmp/wt5/<ID>/SEED/<A|B> -> seeded/<ID>-<G|H>
         do_import(a[1], a[2], root='/tmp/wt5', as_letter={'A': 'G', 'B': 'H'}[a[2]])
+    elif a[0] == 'import5':       # round 5: /tmp/wt7/<ID>/SEED/<A|B> -> seeded/<ID>-<I|J>
+        do_import(a[1], a[2], root='/tmp/wt7', as_letter={'A': 'I', 'B': 'J'}[a[2]])
     elif a[0] == 'verify':
         tier = 'quick'
         checks = None
